@@ -112,6 +112,86 @@ theorem c06_close_closes_stdin (sty : Style) (items : List Outbound) :
     ∧ (writer sty items true).bytes = childBytes sty items := by
   simp [writer]
 
+/-! ## Two writers on the child's stdin
+
+The outgoing-stream writer is not alone: the stdout reader task writes a rejection error line
+(`_send_error_response`) for every batch received at a version without batching.  Both use one
+`send()` per complete line, and a `send()` is atomic; the scheduler interleaves the two tasks'
+sends in any order.  The next theorems are for EVERY interleaving. -/
+
+/-- **Lines are never torn, whatever the interleaving.**  If the sends reaching the pipe are any
+interleaving `m` of the writer task's sends and the reader task's rejection sends, then the byte
+stream splits at LF into an interleaving of exactly the accepted outbound lines (in the order
+sent) and the rejection lines, nothing left over, no line with a raw break. -/
+theorem c06_two_writers_lines_intact (sty : Style) (h : GoodStyle sty) (items : List Outbound)
+    (rejs : List Json) (hg : ∀ it ∈ items, Guarded it) (m : List (List Nat))
+    (hm : Interleaving (sends sty items) (rejectionSends sty rejs) m) :
+    ∃ lines, Interleaving (items.filterMap (ser sty)) (rejs.map (enc sty)) lines
+      ∧ split LF m.flatten = (lines.map encode, [])
+      ∧ (∀ l ∈ lines, NoBreak l)
+      ∧ (items.filterMap (ser sty)).Sublist lines := by
+  rw [sends_eq, rejectionSends_eq] at hm
+  obtain ⟨lines, hl, rfl⟩ := interleaving_map_inv _ m _ _ hm
+  have hnb : ∀ l ∈ lines, NoBreak l := by
+    intro l hlm
+    rcases interleaving_mem hl l hlm with h1 | h1
+    · exact c06_no_raw_break sty h items hg l h1
+    · simp only [List.mem_map] at h1
+      obtain ⟨r, _, rfl⟩ := h1
+      exact c06_encoder_no_raw_break sty h r
+  exact ⟨lines, hl, split_lines lines (fun l hlm => (hnb l hlm).1), hnb, interleaving_sublist_left hl⟩
+
+/-- … in particular for every schedule of the executable two-writer model. -/
+theorem c06_two_writers_every_schedule (sty : Style) (h : GoodStyle sty) (items : List Outbound)
+    (rejs : List Json) (hg : ∀ it ∈ items, Guarded it) (sched : List Bool) :
+    ∃ lines, Interleaving (items.filterMap (ser sty)) (rejs.map (enc sty)) lines
+      ∧ split LF (childBytes2 sty items rejs sched) = (lines.map encode, [])
+      ∧ (items.filterMap (ser sty)).Sublist lines := by
+  obtain ⟨lines, h1, h2, _, h4⟩ := c06_two_writers_lines_intact sty h items rejs hg _
+    (mergeAll_interleaving sched (sends sty items) (rejectionSends sty rejs))
+  exact ⟨lines, h1, h2, h4⟩
+
+/-- **Every line the child receives is one complete outbound message or one complete rejection
+error** — never a fragment, never two glued together. -/
+theorem c06_each_line_message_or_rejection (sty : Style) (h : GoodStyle sty) (items : List Outbound)
+    (rejs : List Json) (hg : ∀ it ∈ items, Guarded it) (m : List (List Nat))
+    (hm : Interleaving (sends sty items) (rejectionSends sty rejs) m) :
+    ∀ b ∈ (split LF m.flatten).1,
+      (∃ l ∈ items.filterMap (ser sty), b = encode l) ∨ (∃ r ∈ rejs, b = encode (enc sty r)) := by
+  obtain ⟨lines, hl, hs, _, _⟩ := c06_two_writers_lines_intact sty h items rejs hg m hm
+  intro b hb
+  rw [hs] at hb
+  simp only [List.mem_map] at hb
+  obtain ⟨l, hlm, rfl⟩ := hb
+  rcases interleaving_mem hl l hlm with h1 | h1
+  · exact Or.inl ⟨l, h1, rfl⟩
+  · simp only [List.mem_map] at h1
+    obtain ⟨r, hr, rfl⟩ := h1
+    exact Or.inr ⟨r, hr, rfl⟩
+
+/-- the number of lines is the number of accepted messages plus the number of rejections -/
+theorem c06_two_writers_line_count (sty : Style) (h : GoodStyle sty) (items : List Outbound)
+    (rejs : List Json) (hg : ∀ it ∈ items, Guarded it) (m : List (List Nat))
+    (hm : Interleaving (sends sty items) (rejectionSends sty rejs) m) :
+    (split LF m.flatten).1.length = (items.filterMap (ser sty)).length + rejs.length := by
+  obtain ⟨lines, hl, hs, _, _⟩ := c06_two_writers_lines_intact sty h items rejs hg m hm
+  rw [hs]; simp [interleaving_length hl]
+
+/-! Why "one `send()` per line" is what the theorem rests on: a writer that hands the line `[1,2]`
+to the pipe in two sends can have the rejection `{}` land between them; the child then sees the
+lines `[1,{}` and `2]`, neither a message nor a rejection.  (This is an interleaving of the
+*slices*, not of whole-line sends, so it is outside the hypothesis above — and it is the behaviour
+the correspondence run's slow-stdin cases look for.) -/
+example : split LF ([[91, 49, 44], [123, 125, 10], [50, 93, 10]] : List (List Nat)).flatten
+    = ([[91, 49, 44, 123, 125], [50, 93]], []) := by decide
+
+example : sends Style.compact [.value (.arr [.int 1, .int 2])] = [[91, 49, 44, 50, 93, 10]]
+    ∧ rejectionSends Style.compact [.obj []] = [[123, 125, 10]]
+    ∧ childBytes2 Style.compact [.value (.arr [.int 1, .int 2]), .raw [120]] [.obj []] [true, false]
+        = [91, 49, 44, 50, 93, 10, 123, 125, 10, 120, 10] := by
+  simp [sends, rejectionSends, childBytes2, mergeAll, ser, enc, encList, encKvs, intText, natDigits, encode,
+    encodeChar, Style.compact, LF]
+
 /-! ## Non-vacuity: a dict whose string holds LF, CR, U+2028, NUL, a quote and U+1F600, then an
 unserialisable object, then a pre-serialised line -/
 
